@@ -796,6 +796,14 @@ W_H_REF = ("natoms 2\ntemperature 300.0\nnew\nconfig EOF\n" + XG + ABF_H % "a2" 
            "pos 1 0 0 1.25\nstep\npos 1 0 0 1.5\nstep\necho END\n")
 
 
+# F9: the ONLY holder of an uncounted request is deleted: the request stays (known finding)
+WALL_H = "harmonicWalls {\n  name w\n  colvars x\n  lowerWalls 0.0\n  upperWalls 0.5\n  forceConstant 2.0\n}\n"
+W_F9 = ("natoms 2\ntemperature 300.0\nnew\nshow atomf 1 energy 1 bias 1 cv 1\nconfig EOF\n" + XG + WALL_H + ABF_H % "a1" + "EOF\npos 1 0 0 1.0\nstep\n"
+        "script cv bias a1 delete\ndumpdeps\npos 1 0 0 1.25\nstep\npos 1 0 0 1.5\nstep\necho END\n")
+W_F9_REF = ("natoms 2\ntemperature 300.0\nnew\nshow atomf 1 energy 1 bias 1 cv 1\nconfig EOF\n" + XG + WALL_H + "EOF\npos 1 0 0 1.0\nstep\n"
+            "dumpdeps\npos 1 0 0 1.25\nstep\npos 1 0 0 1.5\nstep\necho END\n")
+
+
 # N: default names.  Two unnamed harmonic restraints (harmonic1, harmonic2), the older one deleted, a third defined: it must not
 # take the name of the survivor; then the survivor is deleted BY NAME: exactly the third one must remain
 HARM_U = "harmonic {\n  colvars x\n  centers %s\n  forceConstant 2.0\n}\n"
@@ -910,6 +918,16 @@ def replay_witnesses(run, unit, d, tabs, model):
             run.violation("uncounted-request-given-back:observables", "two abf biases with hideJacobian on x, one deleted: the last step differs from the run in which "
                           "it never existed: %s instead of %s" % ([l for l in A if l not in B][:4], [l for l in B if l not in A][:4]),
                           {"kind": "identity", "scenario": W_H, "reference": W_H_REF})
+    # F9: the only holder of an uncounted request deleted
+    rc, o, e = run_scn(unit, d, W_F9)
+    rc2, o2, e2 = run_scn(unit, d, W_F9_REF)
+    A, B = last_step_block(o), last_step_block(o2)
+    run.count("witness:F9", True)
+    if A is not None and B is not None and not obs_equal(A, B):
+        run.violation(F9, "x = distance with a grid, harmonicWalls w on x, abf a1 on x with hideJacobian on, one step, `cv bias a1 delete`, two steps: "
+                      "hide_Jacobian_force stays enabled in x (a top-level enable by a1 that nothing counts) and the Jacobian force is still subtracted "
+                      "from the walls' force: %s instead of %s" % ([l for l in A if l.startswith("ATOMF")], [l for l in B if l.startswith("ATOMF")]),
+                      {"kind": "identity", "scenario": W_F9, "reference": W_F9_REF})
     # C: reference by name to a deleted / re-defined variable
     rc, o, e = run_scn(unit, d, W_C)
     run.count("witness:C", True)
